@@ -198,6 +198,15 @@ func genCase(t *rapid.T) Case {
 		c.ViewBox[i] = ops.F32(v)
 	}
 	c.Rect = [4]int{rapid.IntRange(-50, 200).Draw(t, "rx"), rapid.IntRange(-50, 200).Draw(t, "ry"), rapid.IntRange(1, 600).Draw(t, "rw"), rapid.IntRange(1, 600).Draw(t, "rh")}
+	if rapid.IntRange(0, 11).Draw(t, "hugesize") == 0 {
+		// a very long strip or a huge canvas: sides beyond 16 bits
+		side := rapid.SampledFrom([]int{65535, 65536, 65537, 70000, 1 << 20, 1<<24 + 1}).Draw(t, "hugeside")
+		if rapid.Bool().Draw(t, "hugew") {
+			c.Rect[2] = side
+		} else {
+			c.Rect[3] = side
+		}
+	}
 	switch rapid.IntRange(0, 9).Draw(t, "origin") {
 	case 0, 1:
 		c.Rect[0], c.Rect[1] = 0, 0
@@ -344,6 +353,9 @@ func classify(c Case) (bool, []string) {
 	}
 	if c.Rect[0] > 1<<23 || c.Rect[0] < -1<<23 || c.Rect[1] > 1<<23 {
 		labels = append(labels, "rect-origin-beyond-2^24")
+	}
+	if c.Rect[2] > 65000 || c.Rect[3] > 65000 {
+		labels = append(labels, "rect-side-beyond-16-bits")
 	}
 	if c.Rect[0] != 0 || c.Rect[1] != 0 {
 		labels = append(labels, "rect-off-origin")
